@@ -44,16 +44,17 @@ def lifecycle_graph(ck):
     return g, out
 
 
-WEIGHT = {"Solve": 8, "Clear": 2, "ClearQuery": 2, "SetPdef": 3, "NewQuery": 3, "GetPlannerData": 2, "Destroy": 1}
+WEIGHT = {"Solve": 8, "Clear": 2, "ClearQuery": 2, "SetPdef": 3, "NewQuery": 3, "GetPlannerData": 2, "Setup": 0, "Destroy": 1}
 
 
 def random_history(out, rng, maxlen, kchoices):
-    s, ops = 0, [{"a": "Setup"}] if rng.random() < 0.3 else []
+    s, ops = 0, []
     # start by binding a definition most of the time (otherwise Solve is not enabled anyway)
     for _ in range(maxlen):
         es = out.get(s, [])
         if not es:
             break
+        es = [x for x in es if WEIGHT.get(x["a"], 1) > 0]
         e = rng.choices(es, weights=[WEIGHT.get(x["a"], 1) for x in es])[0]
         op = {"a": e["a"]}
         if e["a"] in ("SetPdef", "NewQuery"):
@@ -61,6 +62,9 @@ def random_history(out, rng, maxlen, kchoices):
         if e["a"] == "Solve":
             op["k"] = rng.choice(kchoices)
         ops.append(op)
+        # setup() is not in the property's alphabet; the usual explicit call right after binding the first definition
+        if e["a"] == "SetPdef" and not any(o["a"] in ("Solve", "Setup") for o in ops) and rng.random() < 0.4:
+            ops.append({"a": "Setup"})
         s = e["d"]
         if e["a"] == "Destroy":
             break
